@@ -582,7 +582,13 @@ again:
 		break;
 	}
 	case SP_STARVE : {
-		int victim = nthreads > 1 ? 1 + (c->sched_param % (nthreads - 1)) : 0;
+		/* param < 100: count from the first created thread; param >= 100: from the last created one
+		   (the parity writers are created last) */
+		int victim = 0;
+		if (nthreads > 1) {
+			if (c->sched_param >= 100) victim = nthreads - 1 - ((c->sched_param - 100) % (nthreads - 1));
+			else victim = 1 + (c->sched_param % (nthreads - 1));
+		}
 		int m = 0;
 		int o[SIM_THREAD_CAP];
 		for (i = 0; i < n; ++i)
